@@ -3,6 +3,7 @@
 The iff over all paths of all programs is not decided. Decided: the per-edge / per-definition
 action table of cwe_476::Context and of the generic taint transfer it builds on, which is
 the property statement read row by row (R1..R8 as in DESIGN.md section 3/C15).
+ R6+ (added after seed C15c) no Taint::Top is ever written into the register map (eval decides by key presence)
 """
 from .lib import slots as SL
 from .lib import sym as S
